@@ -83,6 +83,46 @@ def handle : List String → String
       (if st'.touched.isEmpty then "invalid" else "ok") ++ "\t" ++ showList st'.touched
         ++ "\t" ++ showList (st'.handed.drop hs.length)
     | _, _, _ => "error\tbad-request"
+  | ["kstep", base, cwd, links, kind, a1, a2, ok] =>
+    -- one Symlink / Rename / Remove call on a local filesystem whose session made `links` so far
+    match fromHex base, fromHex cwd, parseLinks links, fromHex a1, fromHex a2 with
+    | some base, some cwd, some ls, some a1, some a2 =>
+      let okb := ok == "1"
+      let op : Option KOp := match kind with
+        | "symlink" => some (.symlink a1 a2 okb)
+        | "rename" => some (.rename a1 a2 okb)
+        | "remove" => some (.remove a1 okb)
+        | _ => none
+      match op with
+      | some op =>
+        let ls' := kstep base (comps cwd) 64 ls op
+        showLinks ls' ++ "\t" ++ toString (linksClosed (baseComps base cwd) ls')
+      | none => "error\tbad-request"
+    | _, _, _, _, _ => "error\tbad-hex"
+  | ["kread", base, cwd, links, p] =>
+    -- where a read of `p` ends when the kernel follows the session's links
+    match fromHex base, fromHex cwd, parseLinks links, fromHex p with
+    | some base, some cwd, some ls, some p =>
+      match localResolve base p with
+      | .invalid => "invalid"
+      | .ok r =>
+        match hostWalk ls (comps cwd) 64 r with
+        | none => "loop\t" ++ toHexField r
+        | some h => "ok\t" ++ toHexField (47 :: joinSep h) ++ "\t"
+            ++ (if isCompPrefix (baseComps base cwd) h then "inside" else "outside") ++ "\t" ++ toHexField r
+    | _, _, _, _ => "error\tbad-hex"
   | _ => "error\tunknown-request"
+where
+  baseComps (base cwd : Path) : List Path :=
+    if isAbs base then comps base else cleanComps true (comps cwd ++ split base)
+  parseLinks (s : String) : Option Links :=
+    if s = "none" then some [] else
+      (s.splitOn ",").mapM (fun e => match e.splitOn "=" with
+        | [l, c] => match fromHex l, fromHex c with
+          | some l, some c => some (comps l, c)
+          | _, _ => none
+        | _ => none)
+  showLinks (l : Links) : String :=
+    if l.isEmpty then "none" else ",".intercalate (l.map (fun e => toHexField (47 :: joinSep e.1) ++ "=" ++ toHexField e.2))
 
 end Risor.C13
